@@ -733,10 +733,13 @@ class RefRun(object):
             o.error_handled = any(ev == 'on-error' for _, ev in cmds)
         # dispatch: noop removed; everything after the first state command is
         # dropped; a leading state command drops everything else
-        eff = [(en, ev) for en, ev in cmds if en['to'] != 'noop']
+        # 'pause' only suspends: the commands after it are kept in a backlog
+        # and processed on resume, so it does not change the outcome
+        eff = [(en, ev) for en, ev in cmds
+               if en['to'] not in ('noop', 'pause')]
         idx = None
         for i, (en, ev) in enumerate(eff):
-            if en['to'] in ('fail', 'succeed', 'pause'):
+            if en['to'] in ('fail', 'succeed'):
                 idx = i
                 break
         if idx is not None:
